@@ -189,12 +189,12 @@ def real_traces(rnd, n_hist, beta, beta2, nep, long_calls):
             if rnd.random() < 0.4:
                 bl.epoch_callback(None, env=None, batch_size=1, device="cpu", epoch=ep, dataset_size=None)
                 ep += 1
-                ev.append({"call": "epoch", "batch": [], "ret": 0, "alpha": int(round(bl.alpha * 1e6))})
+                ev.append({"call": "epoch", "batch": [], "ret": 0, "alpha": int(round(float(bl.alpha) * 1e6))})
             else:
                 b = [rnd.randint(-3, 3) for _ in range(rnd.randint(1, 2))]
                 val, _ = bl.eval(None, t32(b), None)
                 ev.append({"call": "eval", "batch": b, "ret": int(round(float(val) * 1e6)),
-                           "alpha": int(round(bl.alpha * 1e6))})
+                           "alpha": int(round(float(bl.alpha) * 1e6))})
         recs.append({"kind": "U", "mode": "", "ev": ev})
     return recs
 
